@@ -169,6 +169,9 @@ func (x *exec) protoNext(step int, h *handle) {
 // protoCurrent: Current is positioned on the node just reported, and asking
 // twice changes nothing.
 func (x *exec) protoCurrent(step int, h *handle) {
+	if h.dead || h.pos > len(h.want.IDs) {
+		return // already reported / ended
+	}
 	if h.pos == 0 || h.done {
 		// unspecified by the statement: only must not panic
 		func() {
@@ -201,7 +204,7 @@ func (x *exec) protoCurrent(step int, h *handle) {
 // protoWander: the caller walks a copy of Current around the document; the
 // iterator must not notice.
 func (x *exec) protoWander(step int, h *handle, n int, seed uint64) {
-	if h.pos == 0 || h.done {
+	if h.dead || h.pos == 0 || h.done {
 		return
 	}
 	cur, ok := h.it.Current().(*world.Nav)
